@@ -262,15 +262,14 @@ Section Backing.
   Qed.
 
   (** ** Messages *)
-  Lemma inv_msg s m s' c :
-    deliver xcall xcontract MODULE s m = (s', c) -> signer (OMsg m) <> Some MODULE -> Inv s -> Inv s'.
+  Lemma inv_handle s m s' :
+    handle xcall xcontract MODULE s m = Ok s' -> signer (OMsg m) <> Some MODULE -> Inv s -> Inv s'.
   Proof.
-    intros H NS [W B]. destruct c as [|c'].
-    2:{ apply deliver_failure_changes_nothing in H; [subst; split; assumption | discriminate]. }
-    pose proof (deliver_ok_gates _ _ _ _ _ _ _ H) as (_ & _ & p & PR & _ & _ & _ & GP).
-    destruct m as [m|m].
+    intros H NS [W B].
+    pose proof (handle_ok_gates _ _ _ _ _ _ _ H) as (_ & p & PR & _ & _ & _ & GP).
+    destruct m as [m|m]; cbn [handle] in H.
     - (* MsgConvertCoin *)
-      pose proof (convert_coin_exact _ _ _ _ _ _ _ _ H PR) as E. cbv zeta in E. cbn [signer] in NS.
+      pose proof (convert_coin_ok_exact _ _ _ _ _ _ _ _ H PR) as E. cbv zeta in E. cbn [signer] in NS.
       assert (NM : cc_sender m <> MODULE) by congruence.
       destruct (is_contract xcontract s (p_erc20 p)) eqn:C.
       + destruct E as (OW & P & L & BS & SS & (G1 & G2 & G3 & G4 & G5 & G6 & G7 & G8) & A & res & TE & _).
@@ -306,7 +305,7 @@ Section Backing.
       + (* self-destructed contract: the pair is deleted *)
         subst s'. apply (inv_delete_pair s (cc_denom m)); [split; assumption | exact GP | exact C].
     - (* MsgConvertERC20 *)
-      pose proof (convert_erc20_exact _ _ _ _ _ _ _ _ H PR) as E. cbv zeta in E.
+      pose proof (convert_erc20_ok_exact _ _ _ _ _ _ _ _ H PR) as E. cbv zeta in E.
       destruct (is_contract xcontract s (p_erc20 p)) eqn:C.
       + destruct E as (OW & P & BL & BS & SS & (G1 & G2 & G3 & G4 & G5 & G6 & G7 & G8) & A & res & TE & _).
         split; [unfold WF; rewrite G3, G5; exact W|].
@@ -343,7 +342,77 @@ Section Backing.
       + subst s'. apply (inv_delete_pair s (ce_denom m)); [split; assumption | exact GP | exact C].
   Qed.
 
+  Lemma inv_msg s m s' c :
+    deliver xcall xcontract MODULE s m = (s', c) -> signer (OMsg m) <> Some MODULE -> Inv s -> Inv s'.
+  Proof.
+    intros H NS I. apply deliver_inv in H as [(_ & _ & H)|(_ & ->)]; [|exact I].
+    eapply inv_handle; eassumption.
+  Qed.
+
+  (** the ICS-20 hook: ConvertCoin for the receiver, or nothing *)
+  Lemma hook_recv_inv s r d a s' c :
+    hook_recv xcall xcontract MODULE s r d a = (s', c) ->
+    (c = 0%nat /\ denom_registered s d = true /\ valid_denom d = true /\ 0 <= a /\
+     convert_coin xcall xcontract MODULE s (hook_msg r d a) = Ok s') \/ (c <> 0%nat /\ s' = s).
+  Proof.
+    unfold hook_recv. destruct (denom_registered s d); cbn [negb].
+    2:{ intro H; inversion H; right; split; [discriminate | reflexivity]. }
+    destruct (valid_denom d); cbn [negb orb].
+    2:{ intro H; inversion H; right; split; [discriminate | reflexivity]. }
+    destruct (Z.ltb_spec a 0) as [NEG|POS].
+    { intro H; inversion H; right; split; [discriminate | reflexivity]. }
+    destruct (convert_coin xcall xcontract MODULE s (hook_msg r d a)) as [s1| |]; intro H; inversion H; subst.
+    - left. repeat split; try reflexivity. assumption.
+    - right; split; [discriminate | reflexivity].
+    - right; split; [discriminate | reflexivity].
+  Qed.
+
+  Lemma inv_hook s r d a s' c :
+    hook_recv xcall xcontract MODULE s r d a = (s', c) -> r <> MODULE -> Inv s -> Inv s'.
+  Proof.
+    intros H NM I. apply hook_recv_inv in H as [(_ & _ & _ & _ & H)|(_ & ->)]; [|exact I].
+    apply (inv_handle s (MCC (hook_msg r d a)) s'); [exact H | | exact I].
+    cbn [signer hook_msg cc_sender]. congruence.
+  Qed.
+
   (** ** What everybody else can do *)
+  Lemma env_mint_inv s t d a s' k :
+    env_mint s t d a = (s', k) ->
+    (k = 0%nat /\ zmem t (s_blocked s) = false /\ 0 < a /\
+     s' = ensure_acct (set_supply (set_bank s (bset (s_bank s) t d (bget (s_bank s) t d + a)))
+                                  (sset (s_supply s) d (sget (s_supply s) d + a))) t)
+    \/ (k <> 0%nat /\ s' = s).
+  Proof.
+    unfold env_mint. destruct (zmem t (s_blocked s)).
+    { intro H; inversion H; right; split; [discriminate | reflexivity]. }
+    unfold add_coins. destruct (coin_valid d a) eqn:V; cbn [negb obind].
+    2:{ intro H; inversion H; right; split; [discriminate | reflexivity]. }
+    destruct (INTMAX <=? bget (s_bank s) t d + a); cbn [obind].
+    { intro H; inversion H; right; split; [discriminate | reflexivity]. }
+    cbn [s_supply set_bank].
+    destruct (INTMAX <=? sget (s_supply s) d + a); intro H; inversion H; subst.
+    { right; split; [discriminate | reflexivity]. }
+    left. unfold coin_valid in V. apply andb_prop in V as [_ V]. apply Z.ltb_lt in V.
+    repeat split; try reflexivity. exact V.
+  Qed.
+
+  Lemma inv_env_mint s t d a s' k : env_mint s t d a = (s', k) -> Inv s -> Inv s'.
+  Proof.
+    intros H [W B]. apply env_mint_inv in H as [(_ & _ & P & ->)|(_ & ->)]; [|split; assumption].
+    assert (Q : forall s0 : state, s_pairs (ensure_acct s0 t) = s_pairs s0 /\ s_denom (ensure_acct s0 t) = s_denom s0 /\
+                                   s_bank (ensure_acct s0 t) = s_bank s0 /\ s_mtok (ensure_acct s0 t) = s_mtok s0).
+    { intro s0. unfold ensure_acct. destruct (zmem t (s_accts s0)); repeat split; reflexivity. }
+    match goal with |- Inv (ensure_acct ?s0 t) => destruct (Q s0) as (Q1 & Q2 & Q3 & Q4) end.
+    cbn [s_pairs s_denom s_bank s_mtok set_supply set_bank] in Q1, Q2, Q3, Q4.
+    split; [unfold WF; rewrite Q1, Q2; exact W|].
+    apply (backed_step s _ Q1); [|exact B].
+    intros c t' F'. unfold find_mtok in F'. rewrite Q4 in F'.
+    exists t', 0. split; [exact F'|]. split; [ring|]. rewrite Z.add_0_r. apply backing_of_mono.
+    intro d'. unfold escrow. rewrite Q3. rewrite bget_bset.
+    destruct (Z.eqb_spec t MODULE) as [->|_]; cbn [andb]; [|lia].
+    destruct (bytes_eqb_spec d d') as [->|_]; lia.
+  Qed.
+
   Lemma inv_token_call s c caller cl s' k :
     token_call xcall MODULE s c caller cl = (s', k) -> caller <> MODULE -> Inv s -> Inv s'.
   Proof.
@@ -400,7 +469,7 @@ Section Backing.
   (** ** The invariant over all histories *)
   Theorem inv_step s o : not_module_signed MODULE o -> Inv s -> Inv (step s o).
   Proof.
-    intros NS I. destruct o as [m|c caller cl|f t d a|id|p e sd sl].
+    intros NS I. destruct o as [m|c caller cl|f t d a|id|p e sd sl|r d a|t d a].
     - cbn [Convert.step]. destruct (deliver xcall xcontract MODULE s m) as [s' k] eqn:D. cbn [fst].
       eapply inv_msg; eassumption.
     - cbn [Convert.step]. destruct (token_call xcall MODULE s c caller cl) as [s' k] eqn:D. cbn [fst].
@@ -409,6 +478,10 @@ Section Backing.
       eapply inv_bank_send; [exact D| |exact I]. intro; subst. apply NS. reflexivity.
     - apply inv_toggle; exact I.
     - destruct I as [W B]. split; [exact W|]. intros c t F. exact (B c t F).
+    - cbn [Convert.step]. destruct (hook_recv xcall xcontract MODULE s r d a) as [s' k] eqn:D. cbn [fst].
+      eapply inv_hook; [exact D| |exact I]. intro; subst. apply NS. reflexivity.
+    - cbn [Convert.step]. destruct (env_mint s t d a) as [s' k] eqn:D. cbn [fst].
+      eapply inv_env_mint; eassumption.
   Qed.
 
   Theorem inv_run l : forall s, Forall (not_module_signed MODULE) l -> Inv s -> Inv (run s l).
